@@ -27,6 +27,8 @@ CONSTANTS Kind,        \* "rr" | "stream" | "channel": the interaction explored 
           LibSource,   \* publishers are library stream sources: they emit exactly within credit, autonomously (C06)
           Slot,        \* 0 | 1: which of the connection's interactions this is (RSocketMC2 runs two side by side)
           SidOff,      \* 0, or 2 when the other interaction has the same initiator and takes that endpoint's first id
+          Frag,        \* 0: no fragmentation; otherwise the configured fragment size: an element / a response is then two fragments long,
+                       \* the sender writes ONE FRAGMENT per step and whatever else happens may happen between the two
           AsImplemented \* BOOLEAN: request-channel reacts the way the LIBRARY does where it deviates from the design (open findings
                        \* F17a/F17b/F17c: the two directions of a channel are independent - a requester's cancel() neither cancels
                        \* its own publisher nor releases the stream, an endpoint that sent ERROR keeps the stream registered and still
@@ -55,7 +57,9 @@ Ev0 == [ep |-> "-", ev |-> "", t |-> 0, sid |-> -1, ft |-> "", kind |-> "", iid 
 
 App(e, ev, role)    == [Ev0 EXCEPT !.ep = e, !.ev = ev, !.iid = IID, !.role = role]
 Frame(e, ev, ft)    == [Ev0 EXCEPT !.ep = e, !.ev = ev, !.ft = ft, !.sid = SID]
-WithPayload(f, pid) == [f EXCEPT !.pid = pid, !.dl = 1, !.dpid = pid]
+ElemLen == IF Frag > 0 THEN 2 ELSE 1
+WithPayload(f, pid) == [f EXCEPT !.pid = pid, !.dl = 1, !.dpid = pid, !.x = Frag]                 \* a request: always fits one frame
+WithElem(f, pid)    == [f EXCEPT !.pid = pid, !.dl = ElemLen, !.dpid = pid, !.x = Frag]          \* an element / a response
 
 (* fold a sequence of events through the monitors *)
 RECURSIVE Run(_, _, _)
@@ -97,13 +101,20 @@ AppOpen(n0) ==
        IN /\ Do(evs)
           /\ d' = [d EXCEPT !.phase = "open", !.reg[R] = IF Kind = "channel" /\ ~HasPub /\ FALSE THEN @ ELSE @ \cup {SID}]
 
-(* ---- the sender of e writes the oldest queued frame (no fragmentation in this model) --------------------------- *)
+(* ---- the sender of e writes the oldest queued frame - or, when it does not fit the fragment size, its next fragment ---------- *)
 SenderStep(e) ==
     /\ mon.Q[e] # <<>>
     /\ LET s == Head(mon.Q[e])
-           f == [Frame(e, "tx", s.ft) EXCEPT !.sid = s.sid, !.n = s.n, !.C = s.C, !.N = IF s.ft = "PAYLOAD" /\ s.ml + s.dl > 0 THEN 1 ELSE 0,
-                                             !.F = s.F, !.ml = s.ml, !.dl = s.dl, !.dpid = IF s.dl > 0 THEN s.pid ELSE 0, !.code = s.code,
-                                             !.wl = 9 + s.dl]
+           split == Frag > 0 /\ s.ft \in Fragmentable /\ 9 + s.dl > Frag        \* (9 = the frame header in this model's units)
+           rest == s.dl - s.sd
+           part == IF split THEN 1 ELSE s.dl
+           last == ~split \/ rest = 1
+           f == [Frame(e, "tx", IF s.started THEN "PAYLOAD" ELSE s.ft) EXCEPT
+                    !.sid = s.sid, !.n = IF s.started THEN 0 ELSE s.n, !.C = IF last THEN s.C ELSE 0,
+                    !.N = IF s.ft = "PAYLOAD" /\ s.ml + s.dl > 0 THEN 1 ELSE 0,
+                    !.F = IF split THEN (IF last THEN 0 ELSE 1) ELSE s.F, !.ml = s.ml, !.dl = part,
+                    !.dpid = IF s.dl > 0 THEN s.pid ELSE 0, !.doff = IF split THEN s.sd ELSE 0, !.code = s.code,
+                    !.wl = 9 + part]
        IN Do(<<f>>)
     /\ UNCHANGED d
 
@@ -163,7 +174,9 @@ Deliver(e) ==
     /\ LET g == Head(mon.L[e])
            rx == [Frame(e, "rx", g.ft) EXCEPT !.sid = g.sid, !.n = g.n, !.C = g.C, !.N = g.N, !.F = g.F, !.M = g.M, !.ml = g.ml, !.dl = g.dl,
                                               !.mpid = g.mpid, !.moff = g.moff, !.dpid = g.dpid, !.doff = g.doff, !.code = g.code]
-           r == React(e, rx)
+           \* the frame the receiver reacts to: the reassembled one (a fragment that `follows` is only put aside - registered stream or not)
+           whole == IF g.F = 0 /\ g.doff > 0 THEN [rx EXCEPT !.dl = g.doff + g.dl, !.doff = 0] ELSE rx
+           r == IF g.F = 1 THEN [evs |-> <<>>, fin |-> FALSE, reg |-> FALSE] ELSE React(e, whole)
        IN /\ Do(<<rx>> \o r.evs)
           /\ d' = [d EXCEPT !.reg[e] = IF r.fin THEN @ \ {SID} ELSE IF r.reg THEN @ \cup {SID} ELSE @]
 
@@ -173,8 +186,8 @@ Respond(err) ==         \* request-response handler future resolves
     /\ LET pid == d.nextPid
            evs == IF err THEN <<[App(P, "app_respond", "") EXCEPT !.code = 513]>>
                           \o (IF Registered(P) THEN <<[Frame(P, "enq", "ERROR") EXCEPT !.code = 513]>> ELSE <<>>)
-                  ELSE <<[App(P, "app_respond", "") EXCEPT !.pid = pid, !.dl = 1]>>
-                          \o (IF Registered(P) THEN <<[WithPayload(Frame(P, "enq", "PAYLOAD"), pid) EXCEPT !.C = 1, !.N = 1]>> ELSE <<>>)
+                  ELSE <<[App(P, "app_respond", "") EXCEPT !.pid = pid, !.dl = ElemLen]>>
+                          \o (IF Registered(P) THEN <<[WithElem(Frame(P, "enq", "PAYLOAD"), pid) EXCEPT !.C = 1, !.N = 1]>> ELSE <<>>)
        IN /\ Do(evs)
           /\ d' = [Fin(P) EXCEPT !.nextPid = pid + 1]
 
@@ -189,8 +202,8 @@ PubNext(role, complete) ==
            pid == d.nextPid
            w == Wm(e)
            live == Registered(e) /\ ~w.ownDone
-           evs == <<[App(e, "app_pub_next", role) EXCEPT !.pid = pid, !.dl = 1, !.C = IF complete THEN 1 ELSE 0]>>
-                  \o (IF live THEN <<[WithPayload(Frame(e, "enq", "PAYLOAD"), pid) EXCEPT !.N = 1, !.C = IF complete THEN 1 ELSE 0]>> ELSE <<>>)
+           evs == <<[App(e, "app_pub_next", role) EXCEPT !.pid = pid, !.dl = ElemLen, !.C = IF complete THEN 1 ELSE 0]>>
+                  \o (IF live THEN <<[WithElem(Frame(e, "enq", "PAYLOAD"), pid) EXCEPT !.N = 1, !.C = IF complete THEN 1 ELSE 0]>> ELSE <<>>)
            fin == live /\ complete /\ (Kind = "stream" \/ w.peerDone \/ w.peerCut)
        IN /\ Do(evs)
           /\ d' = [(IF fin THEN Fin(e) ELSE d) EXCEPT !.nextPid = pid + 1, !.elems[role] = @ + 1]
@@ -291,6 +304,11 @@ TypeOK == d.phase \in {"idle", "open"} /\ viol \subseteq STRING
 
 (* C07: at most one terminal signal per subscriber / the future resolves once - enforced by the clauses; restated on the history *)
 FutureOnce == Has(mon.I, IID) /\ Kind = "rr" => It.fut \in {"pending", "done"}
+
+(* control (must be REFUTED with Frag > 0: the model does reach it): the last fragment of a frame arrives at an endpoint that has
+   meanwhile finished the stream (it cancelled between the two fragments) *)
+FragmentNeverOrphaned ==
+    \A e \in E : ~(mon.L[e] # <<>> /\ Head(mon.L[e]).sid = SID /\ Head(mon.L[e]).F = 0 /\ Head(mon.L[e]).doff > 0 /\ ~Registered(e))
 
 (* C10: once both endpoints consider the interaction terminated and everything is drained, nothing stays registered *)
 NothingRetained ==
